@@ -24,6 +24,8 @@ def cost_spec(method, name):
     table = {
         'params': C.params, 'ops': C.ops, 'params_no_bias': C.params_no_bias, 'ops_no_bias': C.ops_no_bias,
         'params_bit': C.params_bit, 'ops_bit': C.ops_bit,
+        # hardware cost models (look-up tables and roofline-style formulas): gap8 for PIT, mpic for MPS
+        'gap8_latency': C.gap8_latency, 'mpic_latency': C.mpic_latency, 'mpic_energy': C.mpic_energy,
     }
     kind, _, names = name.partition(':')
     names = names.split('+')
@@ -114,9 +116,31 @@ def _build_model(cfg, build_seed, spec_obj=None):
         w_search = ctor.pop('w_search', 'layer')
         w_prec = tuple(ctor.pop('w_prec', (2, 4, 8)))
         a_prec = tuple(ctor.pop('a_prec', (2, 4, 8)))
+        qinfo = get_default_qinfo(w_precision=w_prec, a_precision=a_prec)
+        variant = ctor.pop('qinfo', None)
+        if variant == 'asym':
+            # asymmetric min-max weight quantizers everywhere
+            qinfo['layer_default']['weight']['kwargs'] = {'symmetric': False}
+        elif variant == 'initclip':
+            qinfo['layer_default']['output']['kwargs'] = {'init_clip_val': 3.0}
+            qinfo['input_default']['kwargs'] = {'init_clip_val': 2.0}
+        elif variant == 'signed':
+            from plinio.methods.mps.quant.quantizers import PACTActSigned
+            qinfo['layer_default']['output']['quantizer'] = PACTActSigned
+            qinfo['input_default']['quantizer'] = PACTActSigned
+            qinfo['input_default']['kwargs'] = {}
+        elif variant == 'override':
+            # quantization information given for one layer by name: other candidate precisions, asymmetric weights
+            import copy
+            names = [n for n, d in spec['mods'].items() if d['t'].startswith('conv') or d['t'] == 'linear']
+            if names:
+                q1 = copy.deepcopy(qinfo['layer_default'])
+                q1['weight']['search_precision'] = tuple(sorted(set(w_prec) | {8}))[-2:]
+                q1['weight']['kwargs'] = {'symmetric': False}
+                qinfo[sorted(names)[0]] = q1
         return MPS(net, cost=cs, **kw,
                    w_search_type=MPSType.PER_CHANNEL if w_search == 'channel' else MPSType.PER_LAYER,
-                   qinfo=get_default_qinfo(w_precision=w_prec, a_precision=a_prec), **ctor)
+                   qinfo=qinfo, **ctor)
     if cfg['method'] == 'sn':
         return SuperNet(net, cost=cs, **kw, **ctor)
     raise ValueError(cfg['method'])
@@ -147,7 +171,7 @@ class Replica:
         torch.save(self.model.state_dict(), buf)
         return buf.getvalue()
 
-    def crash_restart(self, new_build_seed, stale_example=False, prologue=()):
+    def crash_restart(self, new_build_seed, stale_example=False, prologue=(), config_after_load=False):
         """durable state = the bytes of state_dict(); everything else of the process is lost.
         `prologue`: what the restarted script does with the fresh wrapper BEFORE it loads the checkpoint (print the
         summary / cost, export the initial architecture, run an inference batch) - calls that do not change a model.
@@ -183,11 +207,17 @@ class Replica:
             except Exception:
                 pass
         log, self.config_log = self.config_log, []
-        for op in log:
-            apply_config(self, op, replay=True)
+        if not config_after_load:
+            for op in log:
+                apply_config(self, op, replay=True)
         saved = torch.load(io.BytesIO(data), weights_only=True)
         saved_sd = {k: tuple(v.shape) for k, v in saved.items()}
         res = self.model.load_state_dict(saved, strict=False)
+        if config_after_load:
+            # the other legitimate order of a resume script: construct, load the checkpoint, THEN re-issue the
+            # configuration calls (configuration is not state: the order must not matter)
+            for op in log:
+                apply_config(self, op, replay=True)
         self.restarts += 1
         return res, fresh_sd, saved_sd
 
@@ -198,7 +228,7 @@ class Replica:
 CONFIG_OPS = ('set_mode', 'train_nas_only', 'train_net_only', 'train_net_and_nas', 'set_flag',
               'softmax_opts', 'set_cost_spec')
 OBSERVER_OPS = ('export', 'export_nobn', 'summary', 'cost', 'get_cost', 'str', 'switch_spec_and_back',
-                'named_params', 'state_dict', 'nas_summary', 'export_and_eval')
+                'named_params', 'state_dict', 'nas_summary', 'export_and_eval', 'bystander')
 
 
 def data_for(cfg, run_seed, idx):
@@ -532,9 +562,25 @@ def apply_op(rep, op, idx, run_seed, side_hook=None):
     raise ValueError(k)
 
 
+def run_bystander(op, run_seed, idx):
+    """another search living in the same process (the previous model of a sweep, the other stage of a PIT -> MPS
+    pipeline, a second experiment of a notebook): an independent wrapper of ANOTHER seed network is built from the
+    configuration carried by the op, pushed through a few steps, looked at and exported. It shares no object with the
+    model under test except plinio itself (classes, module globals, the built-in cost specifications)."""
+    rep = Replica(op['cfg'], torch_seed(run_seed, 'bystander', idx), 'B')
+    for j, o in enumerate(op['ops']):
+        try:
+            apply_op(rep, o, 10 ** 6 + idx * 100 + j, run_seed)
+        except Exception:
+            pass
+    return {'ok': 1}
+
+
 def apply_observer(rep, op):
     m = rep.model
     k = op['op']
+    if k == 'bystander':
+        return run_bystander(op, op.get('seed', 0), op.get('idx', 0))
     if k == 'export':
         e = m.export()
         return {'export': 1}
@@ -561,8 +607,11 @@ def apply_observer(rep, op):
     if k == 'switch_spec_and_back':
         cur = rep.cost_name
         m.cost_specification = user_spec(rep, op['name'])
-        total_cost(m)
-        m.cost_specification = user_spec(rep, cur)
+        try:
+            total_cost(m)
+        finally:
+            # the script switches back also when the other specification cannot price this model (the read raises)
+            m.cost_specification = user_spec(rep, cur)
         return {'ok': 1}
     if k == 'named_params':
         list(m.named_nas_parameters())
